@@ -215,9 +215,37 @@ def run(tier, seed):
     from . import c15c_aco
     va, ca = c15c_aco.violations(tier, seed, parts=("model", "e2e", "loglik"))
     viol += [v for v in va if v["property"] == "C12"]
+    # replicated heat-map rollouts (multi-start NARGNN, the ants of DeepACO) whose step log-probabilities are not those of their
+    # OWN instance's heat map: row r does not belong to instance r mod B (shared with C11)
+    for v in va:
+        if v["property"] == "C11" and any(w in v["env"] for w in ("multistart", "AntSystem", "DeepACOPolicy(train")):
+            viol.append(dict(v, property="C12", monitor="replica-" + v["monitor"]))
     states += ca["states"]
     trans += ca["transitions"]
     n_rep += ca["replayed"]
+    # the ant system's RANDOM start nodes (DeepACO): row r = start k of instance r mod B must get a node that is feasible for ITS
+    # instance (drawn with replacement: no distinctness asked); two OP instances whose reachable nodes differ
+    from rl4co.envs import OPEnv
+    from rl4co.models.zoo.deepaco.antsystem import AntSystem
+    oenv = OPEnv(generator_params={"num_loc": 3}, check_solution=False)
+    olocs = torch.tensor([[[0.125, 0.0], [0.875, 0.0], [0.0, 0.875]], [[0.875, 0.0], [0.0, 0.875], [0.125, 0.0]],
+                          [[0.875, 0.0], [0.125, 0.0], [0.0, 0.875]]])
+    for Bn in (2, 3):
+        otd = oenv.reset(TensorDict({"locs": olocs[:Bn], "depot": torch.zeros(Bn, 2), "prize": torch.ones(Bn, 3),
+                                     "max_length": torch.full((Bn,), 1.0)}, batch_size=[Bn]))
+        om = otd["action_mask"].clone()
+        om[:, 0] = False                       # customers only (the depot is feasible everywhere and hides the layout)
+        otd["action_mask"] = om
+        for k in (2, 3, 4):
+            torch.manual_seed(seed + k)
+            sel = AntSystem.select_start_node_fn(otd, oenv, k).tolist()
+            badrows = [r for r in range(Bn * k) if not bool(om[r % Bn, sel[r]])]
+            n_rep += 1
+            if len(sel) != Bn * k or badrows:
+                viol.append({"property": "C12", "env": "AntSystem.select_start_node_fn/op", "monitor": "start-feasible-for-own-instance",
+                             "inst": {"B": Bn, "k": k, "feasible customers per instance": [[a for a in range(4) if bool(om[b, a])] for b in range(Bn)]},
+                             "actions": sel, "detail": "rows %s (row r belongs to instance r mod %d) start at a node their instance cannot reach"
+                                                        % (badrows, Bn)})
     # replicas of NEURAL policies are decoded with their own instance's embeddings: multi-start / multi-sample rollouts of the
     # attention model (incl. SDVRP, whose decoder embeddings are updated per step) recorded per step against an independent
     # reference loop and re-evaluated as ordinary rows of their own instance (DecodeTrace.tla)
@@ -236,6 +264,11 @@ def run(tier, seed):
     from . import c15b_search
     vs, cs = c15b_search.violations(tier, seed)
     viol += [v for v in vs if v["property"] == "C12"]
+    # C12's last clause (best-selection returns the maximum among the instance's own rollouts TOGETHER WITH the actions of that
+    # rollout) is also what the searches' incumbent book-keeping must satisfy: those clauses are shared with C15
+    for v in vs:
+        if v["property"] == "C15" and any(w in v["monitor"] for w in ("stored-solution", "incumbent-is-best", "reported-best")):
+            viol.append(dict(v, property="C12"))
     states += cs["states"]
     trans += cs["transitions"]
     n_rep += cs["replayed"]
